@@ -52,9 +52,10 @@ pub fn execute(case: &str) -> String {
 }
 
 // ===== limits as they travel from the Grpc configuration down to the codec =====
-//   lim.srv <b|a> <enc limit|-> <dec limit|-> <request len> <response len>
-//        b = builder methods, a = apply_max_message_size_config
-//        observed: <grpc-status code> h<handler runs>
+//   lim.srv <b|a><u|s|c|d> <enc limit|-> <dec limit|-> <request len> <response len>
+//        b = builder methods, a = apply_max_message_size_config;
+//        u unary, s server-streaming, c client-streaming, d bidirectional
+//        observed: <grpc-status code> h<handler runs> m<request messages the handler received>
 //   lim.cli <f|c> <enc limit|-> <dec limit|-> <request len> <response len>
 //        f = fresh client, c = a clone of the configured client
 //        observed: ok | err<code>, s<requests whose body the transport read completely>
@@ -81,12 +82,62 @@ fn blob(n: usize) -> Vec<u8> {
 }
 
 #[derive(Clone)]
-struct Reply(usize, Arc<AtomicUsize>);
+struct Reply(usize, Arc<AtomicUsize>, Arc<AtomicUsize>);
+
+type RespStream = Pin<Box<dyn tokio_stream::Stream<Item = Result<Vec<u8>, Status>> + Send>>;
+
+impl tonic::server::ServerStreamingService<Vec<u8>> for Reply {
+    type Response = Vec<u8>;
+    type ResponseStream = RespStream;
+    type Future = Pin<Box<dyn Future<Output = Result<Response<RespStream>, Status>> + Send>>;
+    fn call(&mut self, _req: Request<Vec<u8>>) -> Self::Future {
+        self.1.fetch_add(1, Ordering::SeqCst);
+        self.2.fetch_add(1, Ordering::SeqCst);
+        let n = self.0;
+        Box::pin(async move { Ok(Response::new(Box::pin(tokio_stream::iter(vec![Ok(blob(n))])) as RespStream)) })
+    }
+}
+
+impl tonic::server::ClientStreamingService<Vec<u8>> for Reply {
+    type Response = Vec<u8>;
+    type Future = Pin<Box<dyn Future<Output = Result<Response<Vec<u8>>, Status>> + Send>>;
+    fn call(&mut self, req: Request<tonic::Streaming<Vec<u8>>>) -> Self::Future {
+        self.1.fetch_add(1, Ordering::SeqCst);
+        let n = self.0;
+        let got = self.2.clone();
+        Box::pin(async move {
+            let mut s = req.into_inner();
+            while let Some(_m) = s.message().await? {
+                got.fetch_add(1, Ordering::SeqCst);
+            }
+            Ok(Response::new(blob(n)))
+        })
+    }
+}
+
+impl tonic::server::StreamingService<Vec<u8>> for Reply {
+    type Response = Vec<u8>;
+    type ResponseStream = RespStream;
+    type Future = Pin<Box<dyn Future<Output = Result<Response<RespStream>, Status>> + Send>>;
+    fn call(&mut self, req: Request<tonic::Streaming<Vec<u8>>>) -> Self::Future {
+        self.1.fetch_add(1, Ordering::SeqCst);
+        let n = self.0;
+        let got = self.2.clone();
+        Box::pin(async move {
+            let mut s = req.into_inner();
+            while let Some(_m) = s.message().await? {
+                got.fetch_add(1, Ordering::SeqCst);
+            }
+            Ok(Response::new(Box::pin(tokio_stream::iter(vec![Ok(blob(n))])) as RespStream))
+        })
+    }
+}
 impl tonic::server::UnaryService<Vec<u8>> for Reply {
     type Response = Vec<u8>;
     type Future = Pin<Box<dyn Future<Output = Result<Response<Vec<u8>>, Status>> + Send>>;
     fn call(&mut self, _req: Request<Vec<u8>>) -> Self::Future {
         self.1.fetch_add(1, Ordering::SeqCst);
+        self.2.fetch_add(1, Ordering::SeqCst);
         let n = self.0;
         Box::pin(async move { Ok(Response::new(blob(n))) })
     }
@@ -97,7 +148,7 @@ fn exec_lim_srv(t: &[&str]) -> String {
     rt.block_on(async move {
         let (e, d) = (opt(t[2]), opt(t[3]));
         let mut grpc = tonic::server::Grpc::new(RawCodec);
-        if t[1] == "a" {
+        if t[1].starts_with('a') {
             grpc = grpc.apply_max_message_size_config(d, e);
         } else {
             if let Some(l) = d {
@@ -108,10 +159,17 @@ fn exec_lim_srv(t: &[&str]) -> String {
             }
         }
         let runs = Arc::new(AtomicUsize::new(0));
+        let got = Arc::new(AtomicUsize::new(0));
         let body = frame(0, &blob(t[4].parse().unwrap()));
         let mut req = http::Request::new(tonic::body::Body::new(http_body_util::Full::new(Bytes::from(body))));
         *req.method_mut() = http::Method::POST;
-        let resp = grpc.unary(Reply(t[5].parse().unwrap(), runs.clone()), req).await;
+        let svc = Reply(t[5].parse().unwrap(), runs.clone(), got.clone());
+        let resp = match &t[1][1..] {
+            "u" => grpc.unary(svc, req).await,
+            "s" => grpc.server_streaming(svc, req).await,
+            "c" => grpc.client_streaming(svc, req).await,
+            _ => grpc.streaming(svc, req).await,
+        };
         let (parts, body) = resp.into_parts();
         let (frames, _) = drain_body(body).await;
         let code = parts
@@ -120,7 +178,7 @@ fn exec_lim_srv(t: &[&str]) -> String {
             .map(|v| String::from_utf8_lossy(v.as_bytes()).to_string())
             .or_else(|| frames.iter().find(|f| f.starts_with('t')).map(|f| f[1..].to_string()))
             .unwrap_or_else(|| "-".into());
-        format!("{} h{}", code, runs.load(Ordering::SeqCst))
+        format!("{} h{} m{}", code, runs.load(Ordering::SeqCst), got.load(Ordering::SeqCst))
     })
 }
 
@@ -177,7 +235,7 @@ pub fn gen_limits(tier: &str, rng: &mut Rng) -> Vec<String> {
     let mut out = Vec::new();
     let lims: Vec<Option<usize>> = vec![None, Some(0), Some(1), Some(5), Some(1024)];
     for side in ["lim.srv", "lim.cli"] {
-        for mode in if side == "lim.srv" { ["b", "a"] } else { ["f", "c"] } {
+        for mode in if side == "lim.srv" { vec!["bu", "au", "bs", "bc", "ac", "bd"] } else { vec!["f", "c"] } {
             for e in &lims {
                 for d in &lims {
                     let mut lens = vec![0usize, 1, 6];
